@@ -2,6 +2,7 @@ import TssVerif.Core.Wire
 import TssVerif.Core.OpsCrypto
 import TssVerif.Core.Sign
 import TssVerif.Core.EngineTables
+import TssVerif.Core.Ckd
 /-! Line-protocol ops for signing arithmetic. -/
 namespace TssVerif.OpsSign
 open TssVerif Wire OpsCrypto Sign
@@ -45,6 +46,14 @@ def run (op : String) (args : List String) : Option String :=
         | some l => ";".intercalate l
         | none => "bad-trace")
     | _, _, _ => none
+  | "ckd_derive", [pub, depth, cc, path] =>
+    match pPoint pub, pDec depth, pBytes cc, pList pDec path with
+    | some pub, some depth, some cc, some path =>
+      let k : Ckd.ExtKey := ⟨pub, depth, 0, cc, [0, 0, 0, 0], [0x04, 0x88, 0xad, 0xe4]⟩
+      some ((Ckd.derivePath Secp256k1.n path k 0).render fun (il, c) =>
+        rNat il ++ " " ++ rPoint c.pub ++ " " ++ toString c.depth ++ " " ++ toString c.childIndex ++ " " ++
+          rBytes c.chainCode ++ " " ++ rBytes c.parentFP ++ " " ++ Ckd.serialize c)
+    | _, _, _, _ => none
   | "ed25519_verify", [pub, msg, sig] =>
     match pBytes pub, pBytes msg, pBytes sig with
     | some pub, some msg, some sig => some (rBool (Ed.verify pub msg sig))
